@@ -497,6 +497,21 @@ func (pp *pipe) checkAll() {
 	}
 }
 
+// checkStoredOnly: the durable-state clauses alone (used at a crash point inside a save).
+func (pp *pipe) checkStoredOnly() {
+	for vb := uint16(0); vb < 2; vb++ {
+		want := pp.settled(vb)
+		if st, ok := pp.stored(vb); ok {
+			if st.seq > want {
+				pp.fail("vb%d durable checkpoint %d is ahead of the furthest settled position %d", vb, st.seq, want)
+			}
+			if !pp.legal(vb, st) && st.seq != pp.resume[vb] {
+				pp.fail("vb%d durable checkpoint %v is not the position of any single event (torn tuple)", vb, st)
+			}
+		}
+	}
+}
+
 func seqsOf(ds []*Delivered) []uint64 {
 	var out []uint64
 	for _, d := range ds {
@@ -705,6 +720,32 @@ func pipeMain(p PipeParams) {
 		case op == "crash":
 			pp.hist = append(pp.hist, "crash")
 			pp.checkAll()
+			pp.crashRestart()
+			crashed = true
+		case op == "crashsave":
+			// the process dies part-way through a multi-vBucket save: exactly the per-vBucket writes of the
+			// chosen subset reach the store, the others never do
+			subset := vrt.Choose(4, true, "writes-that-reach-the-store")
+			pp.hist = append(pp.hist, fmt.Sprintf("crash-in-save(applied=%02b)", subset))
+			pp.checkAll()
+			pp.c.Fault = func(r *gocbcore.SimRequest) gocbcore.SimAnswer {
+				if (r.Kind == "mutatein" || r.Kind == "set") && strings.Contains(r.Key, ":checkpoint:") {
+					vb := 0
+					if strings.HasSuffix(r.Key, ":1") {
+						vb = 1
+					}
+					if subset&(1<<vb) != 0 {
+						return gocbcore.SimAnswer{Kind: "applydrop"} // applied, the reply never arrives
+					}
+					return gocbcore.SimAnswer{Kind: "drop"}
+				}
+				return gocbcore.SimAnswer{}
+			}
+			saver := pp.e
+			vrt.GoNamed("dying-saver", func() { saver.Stream.Save() })
+			vrt.Quiesce()
+			pp.c.Fault = nil
+			pp.checkStoredOnly()
 			pp.crashRestart()
 			crashed = true
 		}
